@@ -249,7 +249,7 @@ def FancyAnalyzer(expression=r"\s+", stoplist=STOP_WORDS, minsize=2,
             | IntraWordFilter(splitwords=splitwords, splitnums=splitnums,
                               mergewords=mergewords, mergenums=mergenums)
             | LowercaseFilter()
-            | StopFilter(stoplist=stoplist, minsize=minsize)
+            | StopFilter(stoplist=stoplist, minsize=minsize, maxsize=maxsize)
             )
 
 
